@@ -5,7 +5,11 @@ translator (harness/flowgraph, go/ssa) -> coq/gen/FlowGraph.v -> coqc Props/C19.
 prints the offending path of the graph (file:line per node) and searches for a dynamic witness on the
 real code (harness/root/cmd/c19: identical math/rand.Seed => identical nonces / SRP A; clock reading
 that reproduces the DH exponent).  The dynamic probe also runs when the proof goes through: a secret
-that repeats although the graph was accepted means the translator missed a flow."""
+that repeats although the graph was accepted means the translator missed a flow.
+Per definition site: sites_ok (every alternative origin of a secret is OS-fed) is part of Inst/C19i.v.
+Freshness: with a recording crypto/rand.Reader the consumers are called directly (c19 fresh) and through
+>= 24 real key exchanges against harness/root/hsserver (c19 exchange); every value handed out / received
+by the server must be a fresh slice of the served stream or a function of bytes read for it (judge)."""
 import json
 import os
 
@@ -36,19 +40,13 @@ def translate(ctx):
 def pregen(ctx):
     """setup: a clean Coq build needs gen/FlowGraph.v and gen/DrawLog.v"""
     translate(ctx)
-    draw_log(ctx, ctx.seed, 2)
+    dynamic_freshness(ctx, ctx.seed, 2, 24, report=False)
 
 
-def draw_log(ctx, seed, srp_calls, write=True):
-    """freshness stage: run the consumers of the real code against a recording crypto/rand.Reader;
-    returns the parsed log and (re)writes coq/gen/DrawLog.v"""
-    hb = C.build_harness("root", pkg="./cmd/c19")
-    log = "%s/drawlog-%d.txt" % (ctx.work, seed)
-    rc, out = C.sh([hb, "fresh", str(seed), str(srp_calls), log], env=ctx.env(), timeout=900)
-    if rc != 0:
-        raise C.BuildError("c19 fresh failed: " + out[-2000:])
-    d = {"seed": seed, "srp_calls": srp_calls, "reads": [], "calls": [], "served": 0}
-    for f in C.read_tsv(log):
+def parse_log(path):
+    d = {"reads": [], "calls": [], "served": 0, "exchanges": []}
+    idx = {}
+    for f in C.read_tsv(path):
         if f[0] == "R":
             d["reads"].append((int(f[3]), int(f[4]), int(f[2])))          # offset, len, call
         elif f[0] in ("H", "N"):
@@ -59,32 +57,149 @@ def draw_log(ctx, seed, srp_calls, write=True):
                     merged[-1] = (merged[-1][0], merged[-1][1] + n)
                 else:
                     merged.append((o, n))
+            k = (int(f[1]), f[2])
+            idx[k] = idx.get(k, 0) + 1
             d["calls"].append({"call": int(f[1]), "consumer": f[2], "size": int(f[3]), "offset": int(f[4]),
-                               "value": f[5], "secret": f[0] == "H", "pieces": merged})
+                               "value": f[5], "secret": f[0] == "H", "pieces": merged, "nth": idx[k]})
         elif f[0] == "P":
             d["calls"].append({"call": int(f[1]), "consumer": "padding", "size": None, "offset": None,
-                               "value": None, "secret": False, "reads": int(f[3])})
+                               "value": None, "secret": False, "reads": int(f[3]), "pieces": [], "nth": 1})
+        elif f[0] == "X":
+            d["exchanges"].append({"call": int(f[1]), "class": f[2], "fault": f[3], "error": f[4] if len(f) > 4 else ""})
         elif f[0] == "S":
             d["served"] = int(f[1])
     d["calls"].sort(key=lambda c: c["call"])
-    # every located run is a handed-out range; a value made of several non-adjacent runs is not a slice (a)
-    d["handed"] = [dict(c, offset=o, size=n, whole=len(c["pieces"]) == 1) for c in d["calls"] for o, n in c.get("pieces", [])]
-    d["unlocated"] = [c for c in d["calls"] if c["secret"] and not c["pieces"]]
-    d["composite"] = [c for c in d["calls"] if c["secret"] and len(c["pieces"]) > 1]
-    if write:
-        rng = lambda l: "[" + "; ".join("(%d, %d)" % (a, b) for a, b in l) + "]"
-        txt = ("(* generated by harness/root/cmd/c19 fresh from the current tree (seed %d) - do not edit *)\n"
-               "From Coq Require Import NArith List.\nImport ListNotations.\nOpen Scope N_scope.\n"
-               "Definition reads : list (N * N) := %s.\nDefinition served : N := %d.\n"
-               "Definition handed : list (N * N) := %s.\nDefinition unlocated : N := %d.\n"
-               % (seed, rng([(o, n) for o, n, _ in d["reads"]]), d["served"],
-                  rng([(c["offset"], c["size"]) for c in d["handed"]]), len(d["unlocated"])))
-        with C.Lock("coq"):
-            pth = C.COQ + "/gen/DrawLog.v"
-            if not os.path.exists(pth) or open(pth).read() != txt:
-                with open(pth, "w") as fh:
-                    fh.write(txt)
     return d
+
+
+def run_stage(ctx, stage, seed, n, stream_seed=None):
+    """stage 'fresh': the consumers called directly (n = SRP calls); stage 'exchange': n real key exchanges.
+    Both against a recording crypto/rand.Reader; returns the parsed log."""
+    hb = C.build_harness("root", pkg="./cmd/c19")
+    log = "%s/%s-%d-%s.txt" % (ctx.work, stage, seed, stream_seed if stream_seed is not None else "s")
+    cmd = [hb, stage, str(seed), str(n), log] + ([str(stream_seed)] if stream_seed is not None else [])
+    rc, out = C.sh(cmd, env=ctx.env(), timeout=900)
+    if rc != 0:
+        raise C.BuildError("c19 %s failed: %s" % (stage, out[-2000:]))
+    d = parse_log(log)
+    d.update({"stage": stage, "seed": seed, "n": n, "stream_seed": stream_seed})
+    return d
+
+
+def overlap(a, b):
+    return max(a[0], b[0]) < min(a[0] + a[1], b[0] + b[1])
+
+
+def judge(ctx, d, second, report=True):
+    """Verdict on one recorded run.  A value is accepted when
+      - it is a slice of the served stream (or several runs of it that all lie in the Reads made during
+        its own call) and none of its bytes was handed out before, or
+      - it is no literal slice, but the source was read during its call, the bytes read there that no
+        other value claims are at least as many as the value is long, the value is different when the
+        same calls run against another stream, and it is not equal to an earlier value
+        (crypto/rand.Int with rejection, b mod (p-1), hashing of fresh bytes ... do not alarm).
+    Everything else is a violation.  Fills d['claimed'] (ranges for the Coq re-check), d['bad']."""
+    stage, found = d["stage"], 0
+    claimed, d["claimed"], d["bad"] = [], [], 0   # (off, len, call, consumer)
+    seen_kind = set()
+    values = {}
+    other = None
+
+    def vio(kind, c, text, extra):
+        nonlocal found
+        d["bad"] += 1
+        if not report or (kind, c["consumer"]) in seen_kind:
+            return
+        seen_kind.add((kind, c["consumer"]))
+        found += 1
+        what = WHAT.get(c["consumer"], c["consumer"])
+        rep = {"stage": stage, "secret": c["consumer"], "seed": d["seed"], "n": d["n"], "call": c["call"], "value": c["value"],
+               "draw_sequence": sequence_text(d["calls"], c["call"]),
+               "reads_of_the_source": [[o, n, cl] for o, n, cl in d["reads"] if cl <= c["call"]][-24:]}
+        if d["exchanges"]:
+            rep["exchanges"] = [x for x in d["exchanges"] if x["call"] <= c["call"]][-8:]
+        rep.update(extra)
+        unit = "key exchange" if stage == "exchange" else "draw"
+        C.violation(ctx, "%s:%s:%s" % (stage, c["consumer"], kind),
+                    "%s [%s #%d%s]: %s; sequence: %s" % (what, unit, c["call"], " through the real makeAuthKey" if stage == "exchange" else "",
+                                                         text, sequence_text(d["calls"], c["call"])[-400:]), rep)
+
+    by_call = {}
+    for c in d["calls"]:
+        by_call.setdefault(c["call"], []).append(c)
+    reads_of = {}
+    for o, n, cl in d["reads"]:
+        reads_of.setdefault(cl, []).append((o, n))
+    for call in sorted(by_call):
+        B = reads_of.get(call, [])
+        nonlit = []
+        for c in by_call[call]:
+            if c["pieces"]:
+                in_b = all(any(r[0] <= o and o + n <= r[0] + r[1] for r in B) for o, n in c["pieces"])
+                if len(c["pieces"]) > 1 and not in_b and c["secret"]:
+                    vio("not-a-slice", c, "the %d bytes are stitched from non-adjacent parts of the stream that were not read during this call: %s"
+                        % (c["size"], ", ".join("stream[%d:%d]" % (o, o + n) for o, n in c["pieces"])),
+                        {"pieces": [list(x) for x in c["pieces"]], "expected": "one slice of the OS stream, or bytes read during the call",
+                         "got": "%d separate older runs" % len(c["pieces"])})
+                for pc in c["pieces"]:
+                    hit = next((q for q in claimed if overlap(pc, q) and not (q[2] == call and q[3] == c["consumer"] and q[4] == c["nth"])), None)
+                    if hit:
+                        lo, hi = max(pc[0], hit[0]), min(pc[0] + pc[1], hit[0] + hit[1])
+                        vio("replayed", c, "stream[%d:%d] of its bytes (run stream[%d:%d]) was already handed out by #%d (%s, stream[%d:%d])"
+                            % (lo, hi, pc[0], pc[0] + pc[1], hit[2], hit[3], hit[0], hit[0] + hit[1]),
+                            {"range": list(pc), "earlier_range": [hit[0], hit[1]], "replays_call": hit[2], "replays_consumer": hit[3],
+                             "expected": "every draw consumes a previously unconsumed range of the OS stream", "got": "overlap of %d bytes" % (hi - lo)})
+                    claimed.append((pc[0], pc[1], call, c["consumer"], c["nth"]))
+            elif c["secret"]:
+                nonlit.append(c)
+        if not nonlit:
+            continue
+        lit = [q for q in claimed if q[2] == call]
+        free = sum(n for o, n in B) - sum(min(q[0] + q[1], r[0] + r[1]) - max(q[0], r[0]) for q in lit for r in B if overlap(q, r))
+        need = sum(c["size"] for c in nonlit)
+        if other is None:
+            other = second()
+            values = {(c["call"], c["consumer"], c["nth"]): c["value"] for c in other["calls"]}
+        for c in nonlit:
+            if not B:
+                vio("not-from-stream", c, "the value (%s...) is not a slice of the bytes crypto/rand.Reader served and the source was not read "
+                    "during the call: it comes from elsewhere (math/rand, the clock, constant or older bytes)" % c["value"][:40],
+                    {"expected": "a slice of the OS stream or a function of bytes read during the call", "got": "no read, no slice"})
+            elif free <= 0:
+                vio("not-from-stream", c, "the value (%s...) is not a slice of the OS stream, and every byte the source served during the call "
+                    "is accounted for by the other secrets: it comes from elsewhere (math/rand, the clock, the session id, constant bytes)"
+                    % c["value"][:40], {"expected": "a slice of the OS stream or a function of bytes read for it", "got": "no bytes of the source left for it"})
+            elif free < need:
+                vio("truncated", c, "the source served %d unclaimed bytes during the call but the secrets handed out need %d" % (free, need),
+                    {"expected": "at least as many fresh bytes as the secret is long", "got": "%d < %d" % (free, need)})
+            elif values.get((c["call"], c["consumer"], c["nth"])) == c["value"]:
+                vio("insensitive", c, "the value (%s...) is the same when the same calls run against a different OS stream" % c["value"][:40],
+                    {"expected": "a different stream gives a different secret", "got": "identical value", "other_stream_seed": other["stream_seed"]})
+            elif c["size"] >= 16 and any(p["value"] == c["value"] for p in d["calls"] if p["secret"] and p["call"] < c["call"]):
+                vio("replayed", c, "the value (%s...) equals one handed out earlier" % c["value"][:40],
+                    {"expected": "fresh value", "got": "repeated value"})
+        for r in B:
+            if not any(overlap(r, q) for q in lit):
+                claimed.append((r[0], r[1], call, "+".join(sorted({c["consumer"] for c in nonlit})), 0))
+    d["claimed"] = [(q[0], q[1]) for q in claimed]
+    d["literal"] = sum(1 for c in d["calls"] if c["secret"] and c["pieces"])
+    d["by_reads"] = sum(1 for c in d["calls"] if c["secret"] and not c["pieces"])
+    return found
+
+
+def write_drawlog(fresh, exch):
+    rng = lambda l: "[" + "; ".join("(%d, %d)" % (a, b) for a, b in l) + "]"
+    txt = ("(* generated by harness/root/cmd/c19 (fresh: seed %d; exchange: %d real key exchanges) from the current tree - do not edit *)\n"
+           "From Coq Require Import NArith List.\nImport ListNotations.\nOpen Scope N_scope.\n" % (fresh["seed"], exch["n"]))
+    for pre, d in (("", fresh), ("ex_", exch)):
+        txt += ("Definition %sreads : list (N * N) := %s.\nDefinition %sserved : N := %d.\n"
+                "Definition %shanded : list (N * N) := %s.\nDefinition %sunlocated : N := %d.\n"
+                % (pre, rng([(o, n) for o, n, _ in d["reads"]]), pre, d["served"], pre, rng(d["claimed"]), pre, d["bad"]))
+    with C.Lock("coq"):
+        pth = C.COQ + "/gen/DrawLog.v"
+        if not os.path.exists(pth) or open(pth).read() != txt:
+            with open(pth, "w") as fh:
+                fh.write(txt)
 
 
 def sequence_text(calls, upto):
@@ -106,63 +221,31 @@ def sequence_text(calls, upto):
     return "; ".join(out)
 
 
-def freshness_violations(ctx, d):
-    """(a) slice of the served stream, (b) no byte handed out twice, (c) nothing from elsewhere"""
-    found = 0
-    seen = set()
-    for c in d["unlocated"]:
-        if c["consumer"] in seen:
-            continue
-        seen.add(c["consumer"])
-        found += 1
-        C.violation(ctx, "fresh:%s:not-from-stream" % c["consumer"],
-                    "%s: the value handed out by draw #%d (%s, %d bytes) is not a slice of the bytes crypto/rand.Reader served "
-                    "(it comes from elsewhere: math/rand, the clock, constant or transformed bytes)"
-                    % (WHAT[c["consumer"]], c["call"], c["value"][:40], c["size"]),
-                    {"stage": "freshness", "secret": c["consumer"], "seed": d["seed"], "srp_calls": d["srp_calls"], "call": c["call"],
-                     "value": c["value"], "draw_sequence": sequence_text(d["calls"], c["call"]),
-                     "expected": "a slice of the recorded OS stream", "got": "bytes that were never served"})
-    for c in d["composite"]:
-        if c["consumer"] in seen:
-            continue
-        seen.add(c["consumer"])
-        found += 1
-        C.violation(ctx, "fresh:%s:not-a-slice" % c["consumer"],
-                    "%s: the value handed out by draw #%d (%d bytes) is stitched from non-adjacent parts of the stream: %s; sequence: %s"
-                    % (WHAT[c["consumer"]], c["call"], c["size"], ", ".join("stream[%d:%d]" % (o, o + n) for o, n in c["pieces"]),
-                       sequence_text(d["calls"], c["call"])[-500:]),
-                    {"stage": "freshness", "secret": c["consumer"], "seed": d["seed"], "srp_calls": d["srp_calls"], "call": c["call"],
-                     "value": c["value"], "pieces": [list(x) for x in c["pieces"]],
-                     "draw_sequence": sequence_text(d["calls"], c["call"]),
-                     "expected": "one contiguous slice of the recorded OS stream", "got": "%d separate runs" % len(c["pieces"])})
-    hs = sorted(d["handed"], key=lambda c: (c["offset"], c["call"]))
-    reported = set()
-    for i, a in enumerate(hs):
-        for b in hs[i + 1:]:
-            if b["offset"] >= a["offset"] + a["size"]:
-                break
-            first, second = sorted((a, b), key=lambda c: c["call"])
-            if first["call"] == second["call"] or second["consumer"] in reported:
-                continue
-            reported.add(second["consumer"])
-            found += 1
-            lo, hi = max(a["offset"], b["offset"]), min(a["offset"] + a["size"], b["offset"] + b["size"])
-            what = WHAT.get(second["consumer"], second["consumer"])
-            C.violation(ctx, "fresh:%s:replayed" % second["consumer"],
-                        "%s: draw #%d (a run of %d bytes = stream[%d:%d]) hands out bytes [%d:%d] again that draw #%d (%s, stream[%d:%d]) "
-                        "already handed out; sequence: %s"
-                        % (what, second["call"], second["size"], second["offset"], second["offset"] + second["size"], lo, hi,
-                           first["call"], first["consumer"], first["offset"], first["offset"] + first["size"],
-                           sequence_text(d["calls"], second["call"])[-700:]),
-                        {"stage": "freshness", "secret": second["consumer"], "seed": d["seed"], "srp_calls": d["srp_calls"],
-                         "call": second["call"], "replays_call": first["call"],
-                         "value": second["value"], "earlier_value": first["value"],
-                         "range": [second["offset"], second["size"]], "earlier_range": [first["offset"], first["size"]],
-                         "draw_sequence": sequence_text(d["calls"], second["call"]),
-                         "reads_of_the_source": [[o, n] for o, n, cl in d["reads"] if cl <= second["call"]][-40:],
-                         "expected": "every draw consumes a previously unconsumed range of the OS stream",
-                         "got": "overlap of %d bytes" % (hi - lo)})
-    return found
+def dynamic_freshness(ctx, seed, srp_calls, exchanges, write=True, report=True):
+    """both freshness stages for one seed; returns (violations found, fresh log, exchange log)"""
+    fr = run_stage(ctx, "fresh", seed, srp_calls, seed)
+    # the direct stage always compares two streams: a secret that ignores the stream is caught even if
+    # some of its bytes happen to be located
+    fr2 = run_stage(ctx, "fresh", seed, srp_calls, seed + 1000003)
+    n = judge(ctx, fr, lambda: fr2, report)
+    v2 = {(c["call"], c["consumer"], c["nth"]): c["value"] for c in fr2["calls"] if c["secret"]}
+    for c in fr["calls"]:
+        if c["secret"] and report and v2.get((c["call"], c["consumer"], c["nth"])) == c["value"]:
+            fr["bad"] += 1
+            n += 1
+            C.violation(ctx, "fresh:%s:insensitive" % c["consumer"],
+                        "%s [draw #%d]: the value (%s...) is the same under two different OS streams" % (WHAT[c["consumer"]], c["call"], c["value"][:40]),
+                        {"stage": "fresh", "secret": c["consumer"], "seed": seed, "n": srp_calls, "call": c["call"], "value": c["value"],
+                         "expected": "a different stream gives a different secret", "got": "identical value"})
+            break
+    ex = run_stage(ctx, "exchange", seed, exchanges, seed)
+    n += judge(ctx, ex, lambda: run_stage(ctx, "exchange", seed, exchanges, seed + 1000003), report)
+    oks = [x for x in ex["exchanges"] if x["class"] == "ok"]
+    if report and (len(oks) < exchanges // 2 or any(x["class"] in ("panic", "hang") for x in ex["exchanges"])):
+        raise C.BuildError("c19 exchange: the scripted key exchanges did not run as scheduled: %s" % ex["exchanges"][:8])
+    if write:
+        write_drawlog(fr, ex)
+    return n, fr, ex
 
 
 def probe(ctx, seeds):
@@ -221,16 +304,16 @@ def leaf_key(path):
 
 def run(ctx):
     fg = translate(ctx)
-    dl = draw_log(ctx, ctx.seed, 8 if ctx.tier == "quick" else 40)
+    fresh_found, dl, ex = dynamic_freshness(ctx, ctx.seed, 8 if ctx.tier == "quick" else 40, 24 if ctx.tier == "quick" else 48)
     pr = C.coq_props(PROPS)
     seeds = [ctx.seed] if ctx.tier == "quick" else [ctx.seed + i for i in range(8)]
     dyn = probe(ctx, seeds)
-    fresh_found = freshness_violations(ctx, dl)
     more = []
     if ctx.tier == "thorough":
         for sd in (ctx.seed + 1, ctx.seed + 2):
-            more.append(draw_log(ctx, sd, 4, write=False))
-            fresh_found += freshness_violations(ctx, more[-1])
+            k, f2, e2 = dynamic_freshness(ctx, sd, 4, 24, write=False)
+            fresh_found += k
+            more += [f2, e2]
     if fresh_found:      # the Coq re-check of the recorded log fails for the same reason
         pr["failed"] = [f for f in pr["failed"] if f["file"] != "theories/Inst/C19f.v"] + \
                        [dict(f, explained=True) for f in pr["failed"] if f["file"] == "theories/Inst/C19f.v"]
@@ -273,6 +356,26 @@ def run(ctx):
             else:
                 rep["no_failing_input"] = True
             C.violation(ctx, key, text, rep)
+        # per definition site ("on every path"): one alternative origin that is not OS-fed
+        for name in SECRETS:
+            for st in by[name].get("sites") or []:
+                sbad = sorted(st.get("bad_paths") or [], key=len)
+                if not sbad and (st.get("sources") or {}).get("KOS"):
+                    continue
+                explained = True
+                lab = st["name"]
+                if sbad:
+                    text = "%s: one of the origins of its value depends on a reproducible source %s -- %s" % (WHAT[name], sbad[0][0], lab)
+                else:
+                    text = ("%s: one of the origins of its value carries no OS randomness at all (constant / zero / cached / "
+                            "caller-supplied: NEUTRAL-only) -- %s" % (WHAT[name], lab))
+                C.violation(ctx, "site:%s:%s" % (name, lab.split(": ", 1)[-1].replace(" ", "_")[:150]), text,
+                            {"secret": name, "site": lab, "no_failing_input": True,
+                             "broken_obligation": "theories/Inst/C19i.v: sites_ok FlowGraph.graph FlowGraph.sites = true",
+                             "offending_path_source_to_site": sbad[0] if sbad else [],
+                             "sources_of_the_site": st.get("sources"), "all_sites_of_the_secret": [x["name"] for x in by[name]["sites"]],
+                             "expected": "every alternative origin of the secret is fed by crypto/rand and by nothing reproducible",
+                             "got": "reproducible source" if sbad else "NEUTRAL-only origin"})
     # obligations that broke without an explanation from the graph (generic theorems, wf, count of secrets)
     for fl in pr["failed"]:
         if fl["file"] == "theories/Inst/C19i.v" and explained or fl.get("explained"):
@@ -302,12 +405,16 @@ def run(ctx):
         s = by[name]
         src = s.get("sources") or {}
         per_secret.append({"secret": name, "nodes": s["nodes"], "edges": s["edges"], "anchors": s.get("anchors") or [],
+                           "definition_sites": [{"site": x["name"], "nodes": x["nodes"],
+                                                 "source_leaves": {k: v for k, v in (x.get("sources") or {}).items() if k != "KNeutral"},
+                                                 "os_fed": bool((x.get("sources") or {}).get("KOS")) and not x.get("bad_paths")}
+                                                for x in s.get("sites") or []],
                            "source_leaves": {k: v for k, v in src.items()},
                            "path_from_an_OS_source": (s.get("good_paths") or [[]])[0]})
-    logs = [dl] + more
+    logs = [dl, ex] + more
     evals = 2 * len(dyn) * len(SECRETS) + sum(len(x["calls"]) for x in logs)
     distinct = len({(r["seed"], n) for r in dyn for n in SECRETS}) + \
-        len({(x["seed"], c["offset"], c["size"]) for x in logs for c in x["handed"]})
+        len({(x["stage"], x["seed"], q) for x in logs for q in x["claimed"]})
     samples = [{"secret": n, "seed": dyn[0]["seed"],
                 **({"run1": short(dyn[0][n]["run1"]), "run2": short(dyn[0][n]["run2"])} if n != "dh_b" else
                    {"b": short(dyn[0][n]["b"]), "clock_window_ns": dyn[0][n]["t1"] - dyn[0][n]["t0"], "clock_seed": dyn[0][n]["clock_seed"]}),
@@ -335,18 +442,33 @@ def run(ctx):
                  "rounds (16, 32), 40 complete key-exchange draw patterns (session id, 16, 32, padding, DH exponent), 8 (thorough 40) "
                  "SRP calls interleaved with nonces and 120 draws in a seed-chosen order; every value handed out must be a slice "
                  "of the served stream and the slices pairwise disjoint (python verdict, re-checked by fresh_ok in Inst/C19f.v); "
-                 "a freshness case = one draw, distinct = distinct (offset, size) located in the stream",
+                 "a value that is no literal slice is accepted when the source was read during its call for at least its "
+                 "length, it changes with the stream (second run with another stream) and it repeats no earlier value. "
+                 "real key exchanges: 24 (thorough 48) x NewMTProto+CreateConnection (real makeAuthKey) against "
+                 "harness/root/hsserver in one process, every 6th answered dh_gen_retry, every 6th with a corrupted resPQ nonce, "
+                 "each followed by a new exchange; judged are the nonce, new_nonce and b (g^b = g_b) the SERVER received. "
+                 "a freshness case = one draw / one received value, distinct = distinct claimed ranges of the stream",
          "samples": samples + [{"freshness_draw": c["call"], "consumer": c["consumer"], "size": c["size"],
-                                "stream_offset": c["offset"], "value": short(c["value"] or "")} for c in dl["calls"][:6]],
+                                "stream_offset": c["offset"], "value": short(c["value"] or "")} for c in dl["calls"][:4]]
+         + [{"key_exchange": c["call"], "server_received": c["consumer"], "size": c["size"], "stream_offset": c["offset"],
+             "value": short(c["value"] or "")} for c in ex["calls"][:6]],
          "freshness": {"seed": dl["seed"], "calls": len(dl["calls"]), "reads_of_crypto_rand_Reader": len(dl["reads"]),
-                       "bytes_served": dl["served"], "values_located_in_stream": len(dl["handed"]),
-                       "secrets_not_in_stream": len(dl["unlocated"]),
+                       "bytes_served": dl["served"], "secrets_located_as_slices": dl["literal"],
+                       "secrets_justified_by_reads_during_the_call": dl["by_reads"], "secrets_rejected": dl["bad"],
                        "per_consumer": {k: sum(1 for c in dl["calls"] if c["consumer"] == k)
                                         for k in sorted({c["consumer"] for c in dl["calls"]})},
-                       "session_ids_from_stream": sum(1 for c in dl["handed"] if c["consumer"] == "session_id"),
+                       "session_ids_from_stream": sum(1 for c in dl["calls"] if c["consumer"] == "session_id" and c["pieces"]),
                        "note": "session id and padding are drawn in the mix because they may share a buffer with the secrets; "
                                "they are not among the four secrets of C19: a session id that is not in the stream is only counted",
                        "sequence": sequence_text(dl["calls"], 10 ** 9)[:600]},
+         "real_key_exchanges": {"exchanges": len(ex["exchanges"]),
+                                "by_outcome": {k: sum(1 for x in ex["exchanges"] if (x["class"], x["fault"]) == k2)
+                                               for k2 in sorted({(x["class"], x["fault"]) for x in ex["exchanges"]})
+                                               for k in ["%s/%s" % k2]},
+                                "values_received_by_the_server": {k: sum(1 for c in ex["calls"] if c["consumer"] == k)
+                                                                  for k in ("nonce", "new_nonce", "dh_b")},
+                                "located_as_slices": ex["literal"], "justified_by_reads": ex["by_reads"], "rejected": ex["bad"],
+                                "reads_of_crypto_rand_Reader": len(ex["reads"]), "bytes_served": ex["served"]},
          "graph": {"nodes": fg["nodes"], "edges": fg["edges"], "expanded_functions": fg["expanded_functions"],
                    "seed_sites_all": fg["seed_sites_all"], "seed_sites_from_construction": fg["seed_sites_from_construction"]},
          "per_secret": per_secret,
@@ -362,14 +484,15 @@ def run(ctx):
 def replay(ctx, path):
     obj = json.load(open(path))
     name = obj.get("secret")
-    if obj.get("stage") == "freshness":
-        d = draw_log(ctx, int(obj.get("seed", ctx.seed)), int(obj.get("srp_calls", 8)), write=False)
-        n = freshness_violations(ctx, d)
+    if obj.get("stage") in ("fresh", "exchange"):
+        sd = int(obj.get("seed", ctx.seed))
+        dynamic_freshness(ctx, sd, int(obj.get("n", 8)) if obj["stage"] == "fresh" else 2,
+                          int(obj.get("n", 24)) if obj["stage"] == "exchange" else 24, write=False)
         mine = [k for (k, _, _) in ctx.violations if k == obj.get("key")]
         for (k, t, _) in ctx.violations:
             print(("* " if k in mine else "  ") + t[:600])
         if not ctx.violations:
-            print("freshness: %d draws, %d values located in the served stream, pairwise disjoint" % (len(d["calls"]), len(d["handed"])))
+            print("freshness: every secret handed out is fresh in both stages")
         if mine:
             print("VIOLATION property=C19 replay=%s" % path)
             return 1
